@@ -154,7 +154,7 @@ def bytes_fact(ft):
     if len(checks) == 1 and isinstance(checks[0], ast.If) and not checks[0].orelse and _unconditional_raise(checks[0].body):
         t = checks[0].test
         if (isinstance(t, ast.UnaryOp) and isinstance(t.op, ast.Not)
-                and _is_isinstance_call(t.operand, var, lambda n: _is_name(n, "bytes_type") or _is_name(n, "bytes_type"))):
+                and _is_isinstance_call(t.operand, var, lambda n: _is_name(n, "bytes_type"))):
             return True
     raise Unsupported("%s: unrecognised check before the assignment" % _where(fn))
 
